@@ -291,6 +291,7 @@ class FunctionEstimator(BaseEstimator):
         x = self.set_x(x)
         self._prepare_attribute("n_landmarks")
         self._prepare_attribute("gp_type")
+        self.validate_parameter()
         if self.ls is None:
             self._prepare_attribute("nn_distances")
         self._prepare_attribute("ls")
